@@ -217,16 +217,16 @@ def run(ctx):
 def replay(ctx, data):
     import ty_unify as TU
 
-    for c in data["replay"]["cases"][:10]:
-        p = {"id": 0, **c["problem"]}
-        if "src" in c:
-            o = TU.observe_call(p)
-        else:
-            o = TU.observe_unify(p)
-        rep = validate(ctx, [o], "r")[0]
+    cases = data["replay"]["cases"][:10]
+    obs = []
+    for i, c in enumerate(cases):
+        p = {"id": i, **c["problem"]}
+        obs.append(TU.observe_call(p) if "src" in c else TU.observe_unify(p))
+    reps = validate(ctx, obs, "r")
+    for i, c in enumerate(cases):
         print("problem:", json.dumps(c["problem"]))
-        print("  code :", json.dumps(o["obs"])[:400], "calls", o["calls"])
-        print("  spec :", json.dumps(rep)[:400])
+        print("  code :", json.dumps(obs[i]["obs"])[:400], "calls", obs[i]["calls"])
+        print("  spec :", json.dumps(reps[i])[:400])
 
 
 def selftest(ctx):
